@@ -734,7 +734,6 @@ static carquet_status_t load_dictionary_page_mmap(
     const parquet_column_metadata_t* col_meta = reader->col_meta;
 
     /* Parse page header directly from mmap */
-    const uint8_t* header_ptr = mmap_data + dict_offset;
 
     parquet_page_header_t page_header;
     size_t header_size;
@@ -750,7 +749,8 @@ static carquet_status_t load_dictionary_page_mmap(
     }
 
     /* Get pointer to compressed data */
-    const uint8_t* compressed = header_ptr + header_size;
+    /* dict_offset was validated against the file size by parse_page_header_mmap */
+    const uint8_t* compressed = mmap_data + dict_offset + header_size;
 
     /* Verify CRC32 if present */
     if (page_header.has_crc && file_reader->options.verify_checksums) {
@@ -954,7 +954,6 @@ static carquet_status_t load_next_page_mmap(
 
     /* Parse page header directly from mmap */
     int64_t page_offset = reader->data_start_offset + reader->current_page;
-    const uint8_t* header_ptr = mmap_data + page_offset;
 
     parquet_page_header_t page_header;
     size_t header_size;
@@ -973,7 +972,6 @@ static carquet_status_t load_next_page_mmap(
             return status;
         }
         page_offset = reader->data_start_offset + reader->current_page;
-        header_ptr = mmap_data + page_offset;
         status = parse_page_header_mmap(
             file_reader, page_offset, &page_header, &header_size, error);
         if (status != CARQUET_OK) {
@@ -987,7 +985,8 @@ static carquet_status_t load_next_page_mmap(
     }
 
     /* Get pointer to page data in mmap */
-    const uint8_t* page_data_ptr = header_ptr + header_size;
+    /* page_offset was validated against the file size by parse_page_header_mmap */
+    const uint8_t* page_data_ptr = mmap_data + page_offset + header_size;
 
     /* Verify CRC32 if present */
     if (page_header.has_crc && file_reader->options.verify_checksums) {
